@@ -241,13 +241,13 @@ def subchecks():
             name="per-rule",
             run_case=run_per_rule,
             strategy=lambda tier: ruleforms.form_case(tier, forms=["plain"]),
-            examples={"quick": 6000, "thorough": 100000},
+            examples={"quick": 6000, "thorough": 300000},
         ),
         SubCheck(
             name="whole-spec",
             run_case=run_whole_spec,
             strategy=lambda tier: gen.scenario(tier),
-            examples={"quick": 1500, "thorough": 12000},
+            examples={"quick": 1500, "thorough": 40000},
             case_timeout=20.0,
         ),
     ]
